@@ -47,6 +47,16 @@ def corpus(tier):
         rnd.shuffle(rest)
         irp = core + rest[:12]
         issues = issues[:0]
+    # seeded generator of well-formed charts (VERIF_SEED): a few in the quick tier, many in the thorough tier
+    gdir = os.path.join(common.WORK, 'genc', 'gen_%d' % common.seed())
+    ngen = 6 if tier == 'quick' else 48
+    try:
+        subprocess.run([sys.executable, os.path.join(common.VERIF, 'corpus', 'gen_charts.py'), str(common.seed()), str(ngen), gdir,
+                        '12' if tier == 'quick' else '16'], check=True, capture_output=True)
+        for p in sorted(glob.glob(os.path.join(gdir, 'gen_%d_*.scxml' % common.seed())))[:ngen]:
+            docs.append(('generated/' + os.path.basename(p), p))
+    except Exception:
+        pass
     for p in irp:
         docs.append(('w3c/lua/' + os.path.basename(p), p))
     for p in issues:
